@@ -326,3 +326,52 @@ def rewrite(src, dst_dir, plan):
             method = zipfile.ZIP_DEFLATED if (plan.get("deflate") == "all" or (plan.get("deflate") == "some" and i % 2)) else zipfile.ZIP_STORED
             z.writestr(zipfile.ZipInfo(n), d, compress_type=method)
     return path, stats
+
+
+# ------------------------------------------------------------------------------------------
+# several tiles in one archive (the layout of issue-17: Index/Tables/Tile.iwa holds the tile of a table and of its summary model)
+
+def colocate_tiles(src, dst):
+    """Write a copy of document `src` in which every Index/Tables/Tile*.iwa archive is folded into one of them; the components of the
+    archives that went away keep their identifier and lose their locator, as in the shipped file laid out that way.
+    Returns the number of tile archives folded away (0: nothing to do, no file written)."""
+    from numbers_parser.generated import TSPArchiveMessages_pb2 as TSP
+
+    members = pkg.members(src)
+    tiles = sorted(n for n, _ in members if n.startswith("Index/Tables/Tile") and n.endswith(".iwa"))
+    if len(tiles) < 2:
+        return 0
+    keep, fold = tiles[-1], tiles[:-1]
+    data = dict(members)
+    stream, _, _ = iwa.stream_of(data[keep], allow_stored=False)
+    moved = set()
+    for n in fold:
+        s2, _, _ = iwa.stream_of(data[n], allow_stored=False)
+        for seg in iwa.parse_segments(s2):
+            moved.add(seg["identifier"])
+        stream += s2
+    out = []
+    for n, d in members:
+        if n in fold:
+            continue
+        if n == keep:
+            d = iwa.build_file(stream)
+        elif n == "Index/Metadata.iwa":
+            ms, _, _ = iwa.stream_of(d, allow_stored=False)
+            new = bytearray()
+            for seg in iwa.parse_segments(ms):
+                msgs = list(seg["messages"])
+                if seg["identifier"] == 2:
+                    pm = TSP.PackageMetadata.FromString(msgs[0])
+                    for c in pm.components:
+                        if c.identifier in moved:
+                            c.locator = ""
+                    msgs[0] = pm.SerializeToString()
+                    header = rebuild_header(seg["header"], [len(m) for m in msgs])
+                    new += iwa.write_varint(len(header)) + header + b"".join(msgs)
+                else:
+                    new += seg["header_len_varint"] + seg["header"] + b"".join(msgs)
+            d = iwa.build_file(bytes(new))
+        out.append((n, d))
+    pkg.write_zip(dst, out)
+    return len(fold)
